@@ -7,6 +7,7 @@ pgtroot <num name> <rootopt 0|1> <swapper st> <hex|-> <caps_kv 0|1> <rd st> <hex
                                                                addrxlat_sys_os_init, aarch64 / riscv64 Linux
 arm <rootknown 0|1> <swapper st> <hex|-> <stext st> <hex|-> <caps 0|1> <rd st> <hex|-> <phys_base 0|1>
                                                                addrxlat_sys_os_init, arm Linux
+vmci <sym|line> <noos|notable|dot|miss|cleared|found> <ostype>   kdump_vmcoreinfo_symbol / kdump_vmcoreinfo_line
 alloc <size> <got 0|1>                                         kdump_set_attr(addrxlat.ostype) on an s390x dump whose os_info
                                                                claims a VMCOREINFO of <size> bytes; got = malloc succeeded
 ```
@@ -48,6 +49,9 @@ def out (names : List String) (r : Res) : String :=
 def blobOf : String → Blob
   | "set" => .present | "cleared" => .cleared | "short" => .short | _ => .absent
 
+def lookOf : String → VLook
+  | "noos" => .noOs | "notable" => .noTable | "dot" => .dot | "cleared" => .cleared | "found" => .found | _ => .miss
+
 def b (s : String) : Bool := s == "1"
 
 partial def loop (h : IO.FS.Stream) : IO Unit := do
@@ -65,6 +69,7 @@ partial def loop (h : IO.FS.Stream) : IO Unit := do
   | ["arm", rk, s1, h1, s2, h2, caps, s3, h3, pb] =>
     IO.println (out xNames (mapLinuxArm (b rk) (part xNames s1 h1) (part xNames s2 h2) (b caps) (part xNames s3 h3) (b pb)
       Part.ok Part.ok (clearError [])))
+  | ["vmci", kind, look, os] => IO.println (out kNames (vmcoreinfoLookup (kind == "sym") (lookOf look) os []))
   | ["alloc", size, got] =>
     IO.println (out kNames (s390OsInfoAlloc size.toNat! (b got) "Cannot allocate memory" Part.ok []))
   | _ => IO.println "> bad-op"
